@@ -68,6 +68,9 @@ def run(ctx):
     lp = ctx.tlc(SPEC, "MC_Loop", cfg="MC_Loop", workers=1, coverage=True, label="MC_Loop", timeout=ctx.pick(1800, 3600))
     ctx.require_coverage(lp, ["DoDeliver"], "MC_Loop")
     seqs = ctx.read_emitted(lp, "sequences.ndjson")
+    alphabet = ctx.read_emitted(lp, "alphabet.ndjson")
+    if len(alphabet) != 5 * 8:
+        ctx.broken("expected 8 letters for each of 5 loop steps, got %d" % len(alphabet))
     loop_steps = sorted({q["step"] for q in seqs})
     if len(seqs) != 5 * (8 + 64 + 512) or len(loop_steps) != 5:
         ctx.broken("expected 2920 message sequences for 5 steps, got %d for %s" % (len(seqs), loop_steps))
@@ -91,7 +94,7 @@ def run(ctx):
         pkg, label, prow, pcases, expected, pseqs = job
         return ctx.gotest(pkg, "^TestVerif_C12_", ["c12_test.go"], extra_overlay=OV, label=label,
                           inputs={"rows.ndjson": prow, "world.ndjson": world, "cases.ndjson": pcases,
-                                  "sequences.ndjson": pseqs},
+                                  "sequences.ndjson": pseqs, "alphabet.ndjson": alphabet},
                           timeout=ctx.pick(2400, 5400))
 
     # the eight harness binaries are independent: build and run them side by side
